@@ -37,3 +37,43 @@ Example C17_source_flag_detects_out_of_range :
    snd (chk_insert 0 [1; 2; 3] 5%Z 9))
   = (Some false, false).
 Proof. vm_compute. reflexivity. Qed.
+
+(* ---- the byte-level parsers and the header-list scanner (tools/genloop -checked -> Gen/LoopChk.v, Gen/PatChk.v) ---- *)
+Require Import Model.Util Model.Headers Model.UtilRt Gen.UtilSrc Gen.LoopSrc Gen.LoopChk Model.Netip Model.Idna Model.PatRt Gen.PatSrc Gen.PatChk.
+Require Import Proofs.LoopChkP Proofs.PatChkP.
+
+(* origins.Parse on EVERY byte string: no index or slice out of range, and the result of the unchecked translation *)
+Theorem C17_source_parse_indexes_in_range : forall s,
+  exists o ok, chk_Parse s = Some (o, ok, true) /\ go_Parse s = Some (o, ok).
+Proof. exact chk_Parse_ok. Qed.
+Print Assumptions C17_source_parse_indexes_in_range.
+
+(* headers.Check on every set and every list of field lines (incl. the IndexAfter precondition n < Size, which is
+   the slice set.elems[n+1:]) *)
+Theorem C17_source_check_indexes_in_range : forall set lines,
+  exists v, chk_Check set lines = Some (v, true) /\ go_Check set lines = Some v.
+Proof. exact chk_Check_ok. Qed.
+Print Assumptions C17_source_check_indexes_in_range.
+
+Theorem C17_source_trim_ows_indexes_in_range : forall s n,
+  exists r ok, chk_TrimOWS s n = Some (r, ok, true) /\ go_TrimOWS s n = Some (r, ok).
+Proof. exact chk_TrimOWS_ok. Qed.
+Print Assumptions C17_source_trim_ows_indexes_in_range.
+
+(* ParsePattern on EVERY string and for every behaviour of net/netip and x/net/idna *)
+Theorem C17_source_parse_pattern_indexes_in_range : forall ace_ok ip6 s,
+  exists p e, chk_ParsePattern ace_ok ip6 s = Some (p, e, true) /\ go_ParsePattern ace_ok ip6 s = Some (p, e).
+Proof. exact chk_ParsePattern_ok. Qed.
+Print Assumptions C17_source_parse_pattern_indexes_in_range.
+
+(* the two Pattern methods slice Value[2:] for a wildcard pattern: in range on every pattern ParsePattern returns *)
+Theorem C17_source_parsed_pattern_methods_indexes_in_range : forall ace_ok ip6 psl s p,
+  go_ParsePattern ace_ok ip6 s = Some (p, None) ->
+  chk_IsDeemedInsecure p = (go_IsDeemedInsecure p, true) /\
+  exists h b, chk_HostIsEffectiveTLD psl p = (h, b, true) /\ go_HostIsEffectiveTLD psl p = (h, b).
+Proof.
+  intros ace_ok ip6 psl s p H. pose proof (parsed_pattern_wf ace_ok ip6 s p H) as W. split.
+  - apply chk_IsDeemedInsecure_ok. exact W.
+  - apply chk_HostIsEffectiveTLD_ok. exact W.
+Qed.
+Print Assumptions C17_source_parsed_pattern_methods_indexes_in_range.
